@@ -168,9 +168,9 @@ def check(case):
     except R.RefRaises as e:
         expect = e
     except R.Unspecified:
-        call(spell.get, a, case["ix"], case["sp"], s["kinds"])
+        call(spell.get, a, case["ix"], case["sp"], s["kinds"], mode=case["mode"])
         return unspecified()
-    got = call(spell.get, a, case["ix"], case["sp"], s["kinds"])
+    got = call(spell.get, a, case["ix"], case["sp"], s["kinds"], mode=case["mode"])
     if common.snap(a) != before:
         return bad("operand modified by a slice read")
     if isinstance(expect, R.RefRaises):
